@@ -46,10 +46,11 @@ t = open(p).read()
 s2, n2 = seed_table(2)
 s3, n3 = seed_table(3)
 s4, n4 = seed_table(4)
-for tag, body in (("fixed", fixed), ("findings", findings), ("seeds2", s2), ("seeds3", s3), ("seeds4", s4)):
+s5, n5 = seed_table(5)
+for tag, body in (("fixed", fixed), ("findings", findings), ("seeds2", s2), ("seeds3", s3), ("seeds4", s4), ("seeds5", s5)):
     pat = re.compile(r"(<!-- gen:%s -->\n).*?(<!-- /gen -->)" % tag, re.S)
     assert pat.search(t), "marker gen:%s missing in DESIGN.md" % tag
     t = pat.sub(lambda m: m.group(1) + body + m.group(2), t)
 open(p, "w").write(t)
-print("DESIGN.md: seeds round2=%d round3=%d round4=%d;" % (n2, n3, n4), end=" ")
+print("DESIGN.md: seeds round2=%d round3=%d round4=%d round5=%d;" % (n2, n3, n4, n5), end=" ")
 print("%d fixed rows, %d findings in %d properties" % (len(rows), len(kf["findings"]), len(byp)))
